@@ -234,7 +234,7 @@ func init() {
 			"distinct = world + feature + mode + mutation; non-trivial = the mutation changed the caller's own value",
 		Assumptions: []string{"mutating the backing array of a slice obtained from an accessor (tag list, path ids, members, keys/values) counts as a change the caller can make"},
 		Quick:       2400, Thorough: 200000,
-		Required:    required,
+		Required: required,
 		Run: func(c *core.Ctx) {
 			r := c.R
 			kind := []string{"basic-mutable", "mutable-overlay"}[c.Index%2]
